@@ -71,7 +71,7 @@ def _fn_desc(f: Any) -> list:
 def _mk_fn(desc: list) -> Any:
     f = c08._mk_fn(desc)
     try:
-        f._c08_desc = list(desc)
+        f._c08_desc = c08.norm_desc(list(desc))     # the shape (function / partial / callable object) is not part of the view
     except AttributeError:
         pass
     return f
@@ -89,7 +89,7 @@ def _make_handler(sim: Any, h: dict, calls: list) -> Any:
         body = kwargs.get("body") or {}
         meta = body.get("metadata", {}) if body else {}
         rec = {"t": sim.now(), "id": h["id"], "kind": h["kind"], "uid": meta.get("uid"), "rv": meta.get("resourceVersion"),
-               "retry": kwargs.get("retry"), "fns": h.get("fns") or []}
+               "retry": kwargs.get("retry"), "fns": c08.norm_fns(h.get("fns") or [])}
         calls.append(rec)
         if h.get("tokens"):
             # Every invocation accumulates content no other invocation has: two status fields (one before, one after
@@ -109,6 +109,11 @@ def _make_handler(sim: Any, h: dict, calls: list) -> Any:
             p.setdefault("status", {})[f"{h['id']}-b"] = tok + "b"
             rec["writes"].append({"t": sim.now(), "set": {"status": {f"{h['id']}-b": tok + "b"}}, "fns": []})
             rec["t_end"] = sim.now()
+            if n < int(h.get("temp") or 0):
+                # the invocation asks to be retried: the runner delivers what it accumulated and goes on
+                import kopf
+                rec["outcome"] = "temp"
+                raise kopf.TemporaryError("again", delay=float(h.get("temp_delay", 0.5)))
             rec["outcome"] = "ok"
             return None
         if h.get("sleep"):
@@ -149,7 +154,7 @@ def _register(sim: Any, h: dict, calls: list) -> None:
 
 
 @contextlib.contextmanager
-def instrumented(sim: Any, pcalls: list, carried: list) -> Iterator[None]:
+def instrumented(sim: Any, pcalls: list, carried: list, strays: list) -> Iterator[None]:
     from kopf._cogs.clients import patching
     from kopf._core.actions import application
     from kopf._core.reactor import processing
@@ -164,6 +169,10 @@ def instrumented(sim: Any, pcalls: list, carried: list) -> Iterator[None]:
     def before(req: dict) -> None:
         call = _call_var.get()
         kind = c08.req_kind(req)
+        if call is None and req["method"] not in ("GET", "HEAD") and "/kopfexamples" in req["path"]:
+            # a write to the watched kind that does not come from `patching.patch_obj`
+            strays.append({"t": sim.now(), "method": req["method"], "path": req["path"], "ctype": req.get("ctype"),
+                           "payload": observe._jsonable(req.get("payload"))})
         if call is None or kind is None or f"/kopfexamples/{call['name']}" not in req["path"]:
             return
         rec = {"kind": kind, "slip": None, "req": req, "state_hook0": (c.rv, c.uid_counter)}
@@ -339,13 +348,14 @@ def run_closed(sc: dict, wall_limit: float = 60.0) -> dict:
     pcalls: list[dict] = []
     carried: list[dict] = []
     hcalls: list[dict] = []
+    strays: list[dict] = []
 
     async def main() -> dict:
         sim = scenario.Sim(copy.deepcopy(sc))
         holder["sim"] = sim
         for h in sc.get("c08_handlers", []):
             _register(sim, h, hcalls)
-        with observe.installed(sim.obs), instrumented(sim, pcalls, carried):
+        with observe.installed(sim.obs), instrumented(sim, pcalls, carried, strays):
             return await sim.run()
 
     err = None
@@ -358,7 +368,7 @@ def run_closed(sc: dict, wall_limit: float = 60.0) -> dict:
     cycles = [{"i": cy["i"], "uid": cy["uid"], "t0": cy["t0"], "event_type": cy["event_type"], "rv": cy["rv"],
                "mem_before": cy.get("mem_before"), "mem_after": cy.get("mem_after"), "error": cy.get("error"),
                "apply": cy.get("apply")} for cy in tr.get("cycles", [])]
-    return {"sim_error": err, "patch_calls": [_finish_call(cl) for cl in pcalls], "carried": carried,
+    return {"sim_error": err, "patch_calls": [_finish_call(cl) for cl in pcalls], "carried": carried, "strays": strays,
             "handler_calls": hcalls + [{k: cl.get(k) for k in ("t", "id", "kind", "uid", "rv", "retry", "outcome", "t_end")}
                                        for cl in tr.get("calls", [])],
             "cycles": cycles, "final_objects": tr.get("final_objects", {}), "marks": tr.get("marks", []),
@@ -476,7 +486,7 @@ def gen_scenario(rng: Any, i: int) -> dict:
         sc["end"] = 12.0
     if kind in ("conflict", "mixed"):
         fns = rng.choice([[["ublock", MARK]], [["ublock", MARK], ["setStatus", "observed", 1]], [["setStatus", "observed", 2]],
-                          [["ublock", MARK], ["uallow", "never.io/x"]]])
+                          [["ublock", MARK], ["uallow", "never.io/x"]], [["pblock", MARK]], [["cblock", MARK], ["setStatus", "observed", 3]]])
         sc["c08_handlers"].append({"kind": "create", "id": "cf", "sleep": rng.choice([0, 0, 0.5]),
                                    "patch": rng.choice([{}, {"status": {"cf": "seen"}}, {"metadata": {"annotations": {"cf": "1"}}}]),
                                    "fns": fns, "result": rng.choice([None, {"ok": 1}])})
@@ -515,6 +525,8 @@ def gen_scenario(rng: Any, i: int) -> dict:
             hk = "daemon" if hid.startswith("d") and rng.random() < 0.7 else "timer"
             sleep = rng.choice([0.25, 0.5, 1.0, 2 / 64]) if n == slow else rng.choice([0, 0, 1 / 64, 0.125])
             h: dict[str, Any] = {"kind": hk, "id": hid, "tokens": True, "sleep": sleep, "opts": {}}
+            if rng.random() < 0.4:
+                h["temp"], h["temp_delay"] = rng.choice([1, 1, 2]), rng.choice([0.25, 0.5, 1.0])
             if hk == "timer":
                 h["opts"]["interval"] = rng.choice([3.0, 5.0, 50.0])
             sc["c08_handlers"].append(h)
@@ -529,8 +541,13 @@ def gen_scenario(rng: Any, i: int) -> dict:
         sc["handlers"].append({"kind": "delete", "id": "del", "script": [rng.choice(["ok", ["temp", 1.0], ["sleep", 0.5, "ok"]])], "default": "ok"})
         sc["handlers"].append({"kind": "create", "id": "cr", "script": [rng.choice(["ok", ["patch", {"status": {"cr": 1}}, "ok"]])], "default": "ok"})
         sc["timeline"].append([1.0, "create", "a", body])
-        how = rng.choice(["slip-edit", "slip-fin", "fault", "slip-edit-late"])
-        if how == "slip-edit":
+        how = rng.choice(["slip-edit", "slip-fin", "fault", "slip-edit-late", "slip-fin-merge", "slip-fin-merge"])
+        if how == "slip-fin-merge":
+            # another controller adds its finalizer right before one of the cycle's merge-patches (also the one that
+            # goes with the release): whatever kopf does to the list afterwards must be computed from a state that has it
+            sc["c08_slips"].append({"kind": rng.choice(["mergeBody", "mergeBody", "mergeStatus"]) if sc["status_subresource"] else "mergeBody",
+                                    "nth": rng.choice([1, 2, 3, 4]), "op": ["addFin", ["late.io/f"]]})
+        elif how == "slip-edit":
             sc["c08_slips"].append({"kind": "jsonBody", "nth": 1, "op": ["edit", {"spec": {"x": 50}}]})
         elif how == "slip-fin":
             sc["c08_slips"].append({"kind": "jsonBody", "nth": 1, "op": ["addFin", ["late.io/f"]]})
@@ -540,8 +557,8 @@ def gen_scenario(rng: Any, i: int) -> dict:
         else:
             sc["c08_slips"].append({"kind": "jsonBody", "nth": 2, "op": ["edit", {"metadata": {"labels": {"z": "1"}}}]})
         sc["timeline"].append([rng.choice([5.0, 6.5]), "delete", "a"])
-        if how == "slip-fin":
-            sc["timeline"].append([9.0, "fins", "a", []])
+        if how in ("slip-fin", "slip-fin-merge"):
+            sc["timeline"].append([12.0 if how == "slip-fin-merge" else 9.0, "fins", "a", []])
         sc["end"] = 20.0
     sc["timeline"].sort(key=lambda e: e[0])
     return sc
@@ -558,7 +575,14 @@ def oracle(ctx: Ctx, sc: dict, tr: dict) -> None:
     for n, o in enumerate(tr["patch_calls"]):
         if o["outcome"]["kind"] == "cancelled" or o["orig"] is None:
             continue
-        c08.oracle_call(ctx, rep, n, o, o["sub"], where="closed-loop patch_obj")
+        # (whether there is a status subresource is the cluster's fact, not what the operator believes)
+        c08.oracle_call(ctx, rep, n, o, bool(sc.get("status_subresource")), where="closed-loop patch_obj")
+    # everything the operator writes to the object goes through the one patching routine (routing by the
+    # subresource, the version test, the silent 404): a write that bypasses it is judged by none of the above
+    for st in tr.get("strays") or []:
+        ctx.oracle_fail(f"the operator wrote to the object outside patching.patch_obj at t={st['t']}: {st['method']} {st['path']} {st['payload']}",
+                        rep, {"site": "patching.patch_obj", "shape": "a write to the object that bypasses the patching routine"})
+        break
     # the next cycle starts from what remained
     for cr in tr["carried"]:
         if not cr["same"]:
@@ -598,6 +622,41 @@ def oracle(ctx: Ctx, sc: dict, tr: dict) -> None:
                     ctx.oracle_fail(f"handler {hc['id']} queued {d} for {uid}; final status is {final.get('status')}", rep, SIG_LOST)
                 else:
                     ctx.count("closed_fn_effect", "applied-once")
+
+
+SIG_F3 = c08.SIG_F3
+
+
+SIG_FOREIGN_FIN = {"site": "patching.patch_obj", "shape": "a finalizer added by another actor disappeared without that actor's doing"}
+
+
+def oracle_foreign_finalizers(ctx: Ctx, sc: dict, tr: dict) -> None:
+    """A finalizer that a foreign write added (a slip right before one of kopf's requests) stays on the object until a
+    foreign write removes it: kopf's own list edits are computed from, and tested against, a state that has it."""
+    rep = {"kind": "closed-loop", "scenario": sc}
+    adds = [m for m in tr["marks"] if m["what"] == "c08_slip" and m.get("op") and m["op"][0] == "addFin"]
+    if not adds:
+        return
+    removals = [float(e[0]) for e in sc.get("timeline", []) if e[1] in ("fins", "force_delete", "recreate")]
+    removals += [m["t"] for m in tr["marks"] if m["what"] == "c08_slip" and m.get("op") and m["op"][0] in ("setFins", "recreate", "delete")]
+    for m in adds:
+        until = min([t for t in removals if t >= m["t"]], default=1e9)
+        for k, vs in tr["history"].items():
+            seen = False
+            uid = None
+            for v in vs:
+                if v["t"] < m["t"] or v["t"] >= until:
+                    continue
+                has = all(f in v["fins"] for f in m["op"][1])
+                if has and not seen:
+                    seen, uid = True, v["uid"]
+                elif seen and v["uid"] == uid and (not has or v["event"] == "DELETED"):
+                    # (a finalizer nobody removed holds the object: it cannot be gone either)
+                    now = "the object is gone (released)" if v["event"] == "DELETED" else f"the stored object has {v['fins']}"
+                    ctx.oracle_fail(f"{m['op'][1]} was added to {uid} by another actor at t={m['t']} (before a {m.get('kind')} request); "
+                                    f"at t={v['t']} {now} and nobody but the operator wrote meanwhile", rep, SIG_FOREIGN_FIN)
+                    return
+            ctx.count("closed_foreign_finalizer", "kept" if seen else "never stored")
 
 
 def _sig_inv(shape: str) -> dict:
@@ -681,9 +740,27 @@ def oracle_invocations(ctx: Ctx, sc: dict, tr: dict) -> None:
                                 _sig_inv("transformation delivered more than once"))
             quiet_for = end_t - (t_end if t_end is not None else end_t)
             if t_end is not None and quiet_for >= 3.0 and not sc.get("faults") and not any(m["what"] in ("killed", "stopped") and not m.get("final") for m in tr["marks"]):
-                if not sent.get(tok + "a") or not sent.get(tok + "b") or (accepted and log.count(tok) != 1):
-                    ctx.oracle_fail(f"content of invocation {tok} (ended at {t_end}) never reached the server: fields sent {[len(sent.get(tok + x, [])) for x in 'ab']}, log {log}",
+                # the deliveries of this invocation's runner for this object, and those after the invocation that left
+                # nothing to retry: whatever the runner carried forward must have taken effect by then
+                runner = [o for o in tr["patch_calls"] if (o.get("task") or "") == f"runner of {hc['id']}" and o["orig"]
+                          and o["orig_raw"]["metadata"]["uid"] == hc["uid"]]
+                settled = [o for o in runner if o["t"] >= t_end and o["outcome"].get("kind") == "ok" and o["outcome"].get("remaining") is None
+                           and all(r["code"] == 200 for r in o["reqs"])]
+                refused = [o for o in fn_calls.get(tok, []) if o["outcome"].get("kind") == "ok" and o["outcome"].get("remaining") is not None]
+                if not sent.get(tok + "a") or not sent.get(tok + "b") or not fn_calls.get(tok) or (accepted and log.count(tok) != 1):
+                    ctx.oracle_fail(f"content of invocation {tok} (ended at {t_end}) never reached the server: fields sent {[len(sent.get(tok + x, [])) for x in 'ab']}, "
+                                    f"deliveries with its transformation {len(fn_calls.get(tok, []))}, log {log}",
                                     rep, _sig_inv("content of an invocation never delivered"))
+                elif log.count(tok) == 0 and settled:
+                    ctx.oracle_fail(f"transformation of invocation {tok} was refused ({len(refused)} time(s)) and never took effect, although a later delivery "
+                                    f"of its runner (t={settled[0]['t']}) was accepted: log {log}", rep,
+                                    _sig_inv("a refused transformation was not carried forward to the runner's next delivery"))
+                elif log.count(tok) == 0 and refused and hc["kind"] == "daemon" and hc.get("outcome") == "ok":
+                    # the daemon's function has returned: the runner made no further delivery
+                    ctx.oracle_fail(f"transformation of invocation {tok} was refused (422) in the last delivery of its daemon, which then exited: "
+                                    f"it never took effect: log {log}", rep, SIG_F3)
+                elif log.count(tok) == 0:
+                    ctx.count("closed_invocations", "refused, pending until the timer's next tick")
                 else:
                     ctx.count("closed_invocations", "delivered-once")
             else:
@@ -730,6 +807,12 @@ def oracle_own_finalizer(ctx: Ctx, sc: dict, tr: dict) -> None:
         fins = o["metadata"].get("finalizers", [])
         marked = bool(o["metadata"].get("deletionTimestamp"))
         n = fins.count(OWN)
+        token_daemons = {h["id"] for h in hs if h["kind"] == "daemon" and h.get("tokens")}
+        if not marked and any(hc.get("uid") == uid and hc.get("id") in token_daemons and hc.get("outcome") == "ok" for hc in tr["handler_calls"]):
+            # a daemon whose function has returned no longer requires the finalizer; it is dropped with the next event,
+            # if one comes (C09's subject): present and absent are both right here
+            ctx.count("closed_own_finalizer", "a daemon has exited on its own")
+            continue
         if marked:
             if n != 0:
                 # still held: legitimate only while a deletion handler has not succeeded yet
@@ -860,6 +943,7 @@ def evaluate(ctx: Ctx, scenarios: list[dict], tie: bool = True) -> None:
         oracle(ctx, sc, tr)
         oracle_own_finalizer(ctx, sc, tr)
         oracle_invocations(ctx, sc, tr)
+        oracle_foreign_finalizers(ctx, sc, tr)
         ctx.count("closed_scenarios", sc.get("c08_kind", "corpus"))
         landed = 0
         for o in tr["patch_calls"]:
